@@ -286,5 +286,5 @@ def main(ctx):
 
     def insertion_guard():
         prog2, info2 = load(c04.CRATES, src_only=c04.SRC)
-        c04.run(ctx, prog2, only=r'^insert_method/|^remove_method_and_scope/|^resolve_method/|^resolve_method_ref/|^DIDUrlQuery::')
+        c04.run(ctx, prog2, only=r'^insert_method/|^remove_method_and_scope/|^resolve_method/|^resolve_method_inner/|^resolve_method_ref/|^DIDUrlQuery::')
     guarded(ctx, 'insert_method guard and complete removal (shared with C04)', 'M', insertion_guard)
